@@ -307,7 +307,7 @@ fn errno_of(e: &PopenError) -> Option<i32> {
 }
 
 /// One spawn: call the library, judge the outcome. Returns the Popen when it is to be kept alive.
-fn do_spawn(plan: &Plan, spec: &SpawnSpec, si: usize, pool: &Pool, boot: &[usize], mt: bool, nontrivial: &mut bool) -> Option<Popen> {
+fn do_spawn(plan: &Plan, spec: &SpawnSpec, si: usize, pool: &Pool, boot: &[Option<usize>], mt: bool, nontrivial: &mut bool) -> Option<Popen> {
     let t = me();
     if sim().poisoned.is_some() {
         return None;
@@ -509,7 +509,7 @@ fn do_spawn(plan: &Plan, spec: &SpawnSpec, si: usize, pool: &Pool, boot: &[usize
 
 pub fn run(plan: &Plan, sp: &SpawnPlan) -> FamOut {
     let mut nontrivial = false;
-    let boot: Vec<usize> = (0..3).map(|i| desc_of_parent_fd(i).unwrap()).collect();
+    let boot: Vec<Option<usize>> = (0..3).map(|i| desc_of_parent_fd(i)).collect();
     if sp.threads == 0 {
         let pool = Pool::new("m");
         let mut kept: Vec<Popen> = vec![];
@@ -765,7 +765,7 @@ fn judge_after_drop(spec: &SpawnSpec, spawn_idx: usize, ctx: &str, failed: bool)
 }
 
 #[allow(clippy::too_many_arguments)]
-fn judge_child(plan: &Plan, spec: &SpawnSpec, si: usize, pid: i32, mo: &ModelOut, p: &Popen, given: [Option<usize>; 3], boot: &[usize], ctx: &str) {
+fn judge_child(plan: &Plan, spec: &SpawnSpec, si: usize, pid: i32, mo: &ModelOut, p: &Popen, given: [Option<usize>; 3], boot: &[Option<usize>], ctx: &str) {
     let s = sim();
     let c = match s.k.all_procs().find(|c| c.pid == pid && matches!(c.kind, PKind::Child(_)) && c.exec.is_some()) {
         Some(c) => c,
@@ -784,7 +784,7 @@ fn judge_child(plan: &Plan, spec: &SpawnSpec, si: usize, pid: i32, mo: &ModelOut
             violate("absent_present", format!("absent_present/stream={}/spec={:?}", names[i], specs[i]), format!("{}: Popen.{} is {} but the stream was configured as {:?}", ctx, names[i], if popen_fds[i].is_some() { "Some" } else { "None" }, specs[i]));
         }
         want[i] = match specs[i] {
-            RedirSpec::None => Some(boot[i]),
+            RedirSpec::None => boot[i],
             RedirSpec::Pipe => {
                 // the peer of the end exposed on the Popen
                 popen_fds[i].and_then(desc_of_parent_fd).and_then(|d| match s.k.descs[d].kind {
@@ -805,6 +805,14 @@ fn judge_child(plan: &Plan, spec: &SpawnSpec, si: usize, pid: i32, mo: &ModelOut
     }
     for i in 0..3 {
         let got = at(i as i32);
+        if specs[i] == RedirSpec::None && boot[i].is_none() {
+            // the parent has this descriptor closed: so has the program
+            sim().k.probe("inherit_closed_std_checked");
+            if let Some(g) = got {
+                violate("wiring", format!("wiring/stream={}/spec=None(closed in the parent)/got={}", names[i], desc_kind_name(g)), format!("{}: the parent runs with descriptor {} closed and the stream is not redirected, yet the program finds {} there", ctx, i, desc_kind_name(g)));
+            }
+            continue;
+        }
         if want[i].is_some() && got != want[i] {
             violate(
                 "wiring",
@@ -1558,6 +1566,14 @@ pub fn generate(prop: &str, rng: &mut Rng, plan: &mut Plan, index: u64) {
                 sp.threads = 2 + rng.below(2) as usize;
                 plan.knobs.personality = *rng.pick(&[crate::sim::Personality::Uniform, crate::sim::Personality::Bursty]);
             }
+        }
+    }
+    // a parent that runs with some of its standard descriptors closed
+    if matches!(prop, "C05" | "C07" | "C08") && sp.threads == 0 && rng.chance(1, 6) {
+        let merge = sp.spawns.iter().any(|s| [s.stdin, s.stdout, s.stderr].contains(&RedirSpec::Merge));
+        if !merge {
+            plan.parent.closed_std = 1 + rng.below(7) as u8;
+            plan.parent.files_low = rng.chance(1, 2);
         }
     }
     plan.body = Body::Spawn(sp);
